@@ -1,5 +1,5 @@
 (** C01 property theorems (any commutative ring: R for SO(3) x R^3, Q/Z for execution). *)
-From Coq Require Import ZArith QArith Ring List Bool.
+From Coq Require Import ZArith QArith Ring List Bool Lia.
 From Acryo Require Import Common.PyNum Common.Ring3 C11.Model C11.Proofs C01.Model C01.Proofs.
 From AcryoGen Require Import Anchors_C11 Anchors_C01.
 
@@ -34,6 +34,12 @@ Theorem C01_molecule_displacement : forall s scale v m, orth A rO rI radd rmul (
   mv A radd rmul (mT A (mr A s)) (vsub A rsub (mp A (post_align A radd rmul s scale v m)) (mp A s)) = vscale A rmul scale v.
 Proof. exact (displacement_in_molecule_frame A rO rI radd rmul rsub ropp Rth). Qed.
 End Statements.
+
+(** the search range reaches every alignment model in pixels: nanometres divided by the scale exactly once, whichever
+    loader entry point is used (align with one or several templates, align_multi_templates, align_no_template) *)
+Theorem C01_search_range_units : forall entry, (0 <= entry <= 3)%Z -> max_shift_divisions entry = 1%Z.
+Proof. intros entry H. assert (entry = 0 \/ entry = 1 \/ entry = 2 \/ entry = 3)%Z as [->|[->|[->| ->]]] by (destruct H; clear - H H0; Lia.lia); reflexivity. Qed.
+Print Assumptions C01_search_range_units.
 
 Print Assumptions C01_pose_update.
 Print Assumptions C01_pose_update_explicit.
